@@ -1,9 +1,18 @@
 package codec
 
 import (
+	"os"
+	"path/filepath"
 	"testing"
 
 	"github.com/cosmos/ibc-go/v11/modules/apps/callbacks/verifx/vx"
 )
 
-func TestMain(m *testing.M) { vx.Main(m) }
+func TestMain(m *testing.M) {
+	// the driver passes the known-findings file to rapid tests through VERIF_KNOWN but not
+	// to native fuzz runs; fall back to the framework's file so both see the same list
+	if os.Getenv("VERIF_KNOWN") == "" {
+		_ = os.Setenv("VERIF_KNOWN", filepath.Join(pkgDir(), "..", "..", "..", "known_findings.json"))
+	}
+	vx.Main(m)
+}
